@@ -1,0 +1,19 @@
+package characteristic
+
+import (
+	"reflect"
+)
+
+// sameValue returns true when both values are the same. Values which cannot be
+// compared (the arrays and objects a controller may write to a characteristic
+// without a known format) are never the same.
+func sameValue(a, b interface{}) bool {
+	if a != nil && !reflect.TypeOf(a).Comparable() {
+		return false
+	}
+	if b != nil && !reflect.TypeOf(b).Comparable() {
+		return false
+	}
+
+	return a == b
+}
